@@ -24,8 +24,8 @@ Import ListNotations.
 From PP Require Import Model.C33 Proofs.C33 Model.C26 Proofs.C26.
 Open Scope Q_scope.
 
-(* After construction and after EVERY history of update_mortar / update_secondary that does
-   not raise, the mortar-to-grid integrated maps are the transposes of the grid-to-mortar
+(* After construction and after EVERY history of update_mortar / update_secondary (1-D mortars,
+   and 2-D mortars with the overlap areas as data of the operation) that does not raise, the mortar-to-grid integrated maps are the transposes of the grid-to-mortar
    averaged maps and vice versa (all four pairs). *)
 Theorem C26_transposes :
   forall nrm tol sg np ns ps fdi ops s0 s',
@@ -58,6 +58,20 @@ Theorem C26_block_weights :
 Proof. exact match_cells_sums. Qed.
 Print Assumptions C26_block_weights.
 
+(* 2-D mortar grids (match_2d): the overlap areas of shapely are data of the operation; when
+   they satisfy C33's area contract for a cell (they sum to its volume) the 'averaged' block
+   has a unit row sum / the 'integrated' block a unit column sum there. *)
+Theorem C26_block_weights_2d :
+  forall tol b,
+    (forall i, (i < length (kb_vnew b))%nat -> ~ nth i (kb_vnew b) 0 == 0 ->
+       row_sum (kb_isect b) i == nth i (kb_vnew b) 0 ->
+       row_sum (kmatch tol Averaged b) i == 1) /\
+    (forall j, (j < length (kb_vold b))%nat -> ~ nth j (kb_vold b) 0 == 0 ->
+       col_sum (kb_isect b) j == nth j (kb_vold b) 0 ->
+       col_sum (kmatch tol Integrated b) j == 1).
+Proof. exact kmatch_sums. Qed.
+Print Assumptions C26_block_weights_2d.
+
 (* Averaged projections stay averaged: the update  P_avg := M * P_avg  keeps the sum of row i
    equal to that of M's row i (= 1 by C26_block_weights) when the rows of P_avg that M's
    row i refers to sum to 1.  [partial: the hypothesis about M = bmat(blocks) is not derived
@@ -65,8 +79,8 @@ Print Assumptions C26_block_weights.
 Theorem C26_avg_rows_preserved_partial :
   forall (m p : mat) (i : nat),
     (forall x, In x m -> erow x = i -> row_sum p (ecol x) == 1) ->
-    row_sum (mmul m p) i == row_sum m i.
-Proof. exact mmul_unit_rows. Qed.
+    row_sum (mprod m p) i == row_sum m i.
+Proof. exact mprod_unit_rows. Qed.
 Print Assumptions C26_avg_rows_preserved_partial.
 
 (* Integrated projections stay integrated, side by side: if the column sums of M over the
@@ -78,8 +92,8 @@ Theorem C26_int_side_cols_preserved_partial :
   forall (p' p : nat -> bool) (m pint : mat) (j : nat),
     (forall y, In y pint -> ecol y = j ->
        csum p' m (erow y) == if p (erow y) then 1 else 0) ->
-    csum p' (mmul m pint) j == csum p pint j.
-Proof. exact mmul_side_cols. Qed.
+    csum p' (mprod m pint) j == csum p pint j.
+Proof. exact mprod_side_cols. Qed.
 Print Assumptions C26_int_side_cols_preserved_partial.
 
 (* The updates raise IndexError only for zero-length cells in both grids of a pair. *)
